@@ -258,7 +258,7 @@ def build_family(tier, seed):
                     for vs in (tuple(chs), tuple(chs[:1]), tuple(chs[1:])):
                         if vs:
                             md.append(dict(a=a, axis=ax, vcharges=vs))
-        cases, _ = fam.thin(cases, 3500 if not thorough else 50000, seed)
+        cases, _ = fam.thin(cases, 1800 if not thorough else 50000, seed)
         groups[f"unary/{nm}"] = ([dict(body="body_unary", spec=c, sample=(i % 2000 == 0), seed=seed + i) for i, c in enumerate(cases)], False)
         md, _ = fam.thin(md, 800 if not thorough else 8000, seed + 5)
         groups[f"multiply_diagonal/{nm}"] = ([dict(body="body_muldiag", spec=c, seed=seed + i) for i, c in enumerate(md)], False)
@@ -280,7 +280,7 @@ def build_family(tier, seed):
                                  phases=tuple(pra[:1]) if fermionic else (), oddpos=(3 if fermionic and gs.parity(sym, q) else None), name="a")
                         B = dict(A, present=tuple(prb), phases=tuple(prb[-1:]) if fermionic else (), name="b")
                         bc.append(dict(a=A, b=B, ops=tuple(ops.gen_same_shape_binary())))
-        bc, _ = fam.thin(bc, 2500 if not thorough else 25000, seed + 1)
+        bc, _ = fam.thin(bc, 1500 if not thorough else 25000, seed + 1)
         groups[f"binary/{nm}"] = ([dict(body="body_binary", spec=c, sample=(i % 2000 == 0), seed=seed + i) for i, c in enumerate(bc)], False)
     return groups
 
